@@ -42,6 +42,7 @@ def _curve_shapes(tier):
     out.append(dict(p=2, mult=[1], r=2, t=2, rational=False, via='operations', norm=False))
     out.append(dict(p=3, mult=[1], r=2, t=1, rational=False, via='method', norm=False))
     out.append(dict(p=2, mult=[], r=1, t=1, rational=True, via='helper', norm=False))
+    out.append(dict(p=2, mult=[1], r=1, t=1, rational=False, via='operations', norm=False, kvtype='tuple'))       # knot vector handed over as a tuple
     if tier == 'thorough':
         out.append(dict(p=3, mult=[1], r=3, t=3, rational=True, via='operations'))
         out.append(dict(p=3, mult=[1], r=1, t=1, rational=True, via='method'))
@@ -75,7 +76,7 @@ def _remove_curve(ctx, crv, via, x, t, rational):
                       'linalg.point_distance', 'operations.remove_knot', 'BSpline.Curve.remove_knot',
                       'BSpline.Curve.insert_knot', 'NURBS.Curve.ctrlptsw'],
           quick=lambda: _curve_shapes('quick'), thorough=lambda: _curve_shapes('thorough'))
-def curve_insert_remove(ctx, p, mult, r, t, rational, via, norm=True):
+def curve_insert_remove(ctx, p, mult, r, t, rational, via, norm=True, kvtype='list'):
     """requires: valid clamped knot vector, x in the open domain and tol-separated from every knot, r <= p - s,
                  positive weights, u in the domain; x was inserted r times (history)
        ensures : after removing x t <= r times: evaluate(u) == C(u) of the original, kv == original + (r - t) copies,
@@ -88,6 +89,8 @@ def curve_insert_remove(ctx, p, mult, r, t, rational, via, norm=True):
     P = shapes.net(ctx, 'P', n, 2)
     W = shapes.weights(ctx, 'w', n) if rational else None
     crv = shapes.build_curve(ctx, p, U, P, W, normalize_kv=norm)
+    if kvtype == 'tuple':
+        crv.knotvector = tuple(U)          # kept as given with normalize_kv=False: a tuple
     Pw = shapes.homog(P, W)
     if rational:
         ctx.assume_pos(spec.curve_point(p, U, [[w] for w in W], u)[0], 'L.weight_function_positive')
@@ -96,6 +99,8 @@ def curve_insert_remove(ctx, p, mult, r, t, rational, via, norm=True):
         ctx.skip('x cannot be inserted r times (multiplicity would exceed the degree)')
     crv.insert_knot(x, num=r)
     ctx.check_true('history.inserted_r_times', crv.ctrlpts_size == n + r)       # C04 is the contract of this step
+    if kvtype == 'tuple':
+        crv.knotvector = tuple(crv.knotvector)      # the refined curve holds its knot vector as a tuple again
     _remove_curve(ctx, crv, via, x, t, rational)
     span = spec.span_spec(p, U, n, x)
     ctx.check_true('size.reduced_by_t', crv.ctrlpts_size == n + r - t and len(crv.ctrlpts) == n + r - t,
